@@ -65,6 +65,7 @@ Definition E_NOTINDEXABLE : N := 4%N.
 Definition E_PATH : N := 5%N.
 Definition E_NEGATIVE : N := 6%N.
 Definition E_USAGE : N := 7%N.
+Definition E_MARSHAL : N := 8%N.
 
 (* what a lookup writes to stdout *)
 Inductive out : Type :=
@@ -304,12 +305,15 @@ Definition ito_not_map (params : list bytes) (kv : list (bytes * jval)) : Outcom
 
 (* ---------- element(): rendering ---------- *)
 
-Definition render_elem (v : jval) : out :=
+(* the `default:` branch marshals the value; utils/json.Marshal refuses a nil
+   value ("no data returned"), yaml.Marshal prints `null` *)
+Definition render_elem (json : bool) (v : jval) : Outcome out :=
   match v with
-  | JStr s => OutScalar s
-  | JNum z => OutScalar (itoa z)
-  | JBool b => OutScalar (bool_text b)
-  | _ => OutVal v
+  | JStr s => Ok (OutScalar s)
+  | JNum z => Ok (OutScalar (itoa z))
+  | JBool b => Ok (OutScalar (bool_text b))
+  | JNull => if json then Err E_MARSHAL else Ok (OutVal JNull)
+  | _ => Ok (OutVal v)
   end.
 
 (* ---------- jsonlines ---------- *)
@@ -345,8 +349,7 @@ Definition jsonl_index (is_not : bool) (params : list bytes) (rows : list jval) 
    ElementLookup cannot walk; rows without any array give []any. *)
 Definition jsonl_element (path : bytes) (rows : list jval) : Outcome out :=
   match rows with
-  | [] => Ok OutUnmodelled                    (* nil table *)
-  | _ =>
+  | _ =>                                      (* no rows: a nil [][]string *)
     if forallb is_arr rows then
       match element_lookup path JNull with    (* only the path checks can differ: every step fails *)
       | Ok _ => Ok OutUnmodelled              (* path with no component: marshals the table *)
@@ -358,7 +361,7 @@ Definition jsonl_element (path : bytes) (rows : list jval) : Outcome out :=
     else obind (element_lookup path (JArr rows)) (fun v =>
          match v with
          | JArr _ | JObj _ | JNull => Ok OutUnmodelled
-         | _ => Ok (render_elem v)
+         | _ => render_elem false v
          end)
   end.
 
@@ -400,7 +403,7 @@ Definition run (f : fmt) (o : op) (legacy : bool) (doc : jval) (params : list by
           end
       | OpElem =>
           match params with
-          | [path] => obind (element_lookup path doc) (fun v => Ok (render_elem v))
+          | [path] => obind (element_lookup path doc) (render_elem (is_json f))
           | _ => Ok OutUnmodelled
           end
       end
